@@ -243,7 +243,9 @@ class AncillaryFeature:
             hasher.update(obj2bytes(rtdc_ds[col]))
         # config keys
         for sec, keys in self.req_config:
-            for key in keys:
+            # The method may also read optional keys of this section
+            # (e.g. "emodulus viscosity"), so hash the entire section.
+            for key in sorted(rtdc_ds.config[sec].keys()):
                 val = rtdc_ds.config[sec][key]
                 data = "{}:{}={}".format(sec, key, val)
                 hasher.update(obj2bytes(data))
